@@ -516,7 +516,7 @@ func init() {
 	// -------------------------------------------------------------------------------- slot chain
 
 	register(&Rule{
-		ID: "chain.complete-implies-pass", Props: []string{"C01", "C16"}, Floor: 1,
+		ID: "chain.complete-implies-pass", Props: []string{"C01", "C16", "C04"}, Floor: 1,
 		Doc: "SlotChain.exit reaches StatSlot.OnCompleted only under a condition on an EntryContext field M such that (i) a fresh / Reset context does not satisfy it and (ii) M is given the satisfying value only in SlotChain.Entry, implied by 'not blocked', with no call (no panic edge) between that store and the first OnEntryPassed: completion callbacks (which decrement the gauge) run only for entries whose pass callbacks ran, also when a prepare or rule slot panics and the request is passed",
 		Run: func(c *Ctx) {
 			exit := c.P.Func("core/base.(*SlotChain).exit")
@@ -619,6 +619,19 @@ func init() {
 					if !implied {
 						good = false
 						reasons = append(reasons, fmt.Sprintf("field %s is set at %s without being implied by 'not blocked'", cd.field, c.P.Pos(s.st.Pos())))
+						continue
+					}
+					// the marker is set before the pass callbacks run: a callback that panics after the built-in statistic
+					// slot has counted the pass must not leave the marker unset (Exit would skip the completion)
+					before := false
+					for _, ci := range callsIn(entry) {
+						if isInvokeOf(ci, "StatSlot", "OnEntryPassed") && instrDominates(s.st, ci.(ssa.Instruction)) {
+							before = true
+						}
+					}
+					if !before {
+						good = false
+						reasons = append(reasons, fmt.Sprintf("field %s is set at %s, which does not precede the OnEntryPassed callbacks: a callback panicking after the gauge was incremented leaves the marker unset and the completion is skipped", cd.field, c.P.Pos(s.st.Pos())))
 						continue
 					}
 					// no call between the store and the first OnEntryPassed invoke
@@ -724,7 +737,7 @@ func init() {
 	// -------------------------------------------------------------------------------- statistic slot effects
 
 	register(&Rule{
-		ID: "stat.effects", Props: []string{"C01", "C04", "C07"}, Floor: 6,
+		ID: "stat.effects", Props: []string{"C01", "C04", "C07", "C03"}, Floor: 6,
 		Doc: "effect signature of stat.Slot over its StatNode receivers (helpers inlined with parameter binding): OnEntryPassed = Inc + Add(Pass, batch) once on ctx.StatNode and, exactly under FlowType()==Inbound, on InboundNode(); OnEntryBlocked = Add(Block, batch) and no gauge change; OnCompleted = Add(Rt, rt) + Add(Complete, batch) + Dec once on the same nodes under the same guards, plus Add(Error, batch) exactly under err != nil with err = ctx.Err(); nothing in a loop",
 		Run: func(c *Ctx) {
 			slot := c.P.Named("core/stat.Slot")
@@ -893,11 +906,11 @@ func init() {
 	})
 
 	register(&Rule{
-		ID: "pool.reset-clears-references", Props: []string{"C16", "C01", "C06"}, Floor: 8,
-		Doc: "when a context is recycled (EntryContext.Reset and the reset methods it calls on the pooled SentinelInput and TokenResult) every field of these three structs that can carry state of the previous entry is written: each field is stored in the type's reset method, or is a pooled sub-object whose own reset method is called there. A surviving reference (e.g. the block error of the previous entry) shows up in a later, unrelated entry that receives the recycled context",
+		ID: "pool.reset-clears-references", Props: []string{"C16", "C01", "C06", "C02"}, Floor: 20,
+		Doc: "when a context is recycled (EntryContext.Reset and the reset methods it calls on the pooled SentinelInput and TokenResult) and when the pooled api.EntryOptions object is recycled (EntryOptions.Reset) every field of these structs that can carry state of the previous entry is written: each field is stored in the type's reset method, or is a pooled sub-object whose own reset method is called there. A surviving reference (e.g. the block error of the previous entry) shows up in a later, unrelated entry that receives the recycled context",
 		Run: func(c *Ctx) {
 			type spec struct{ typ, reset string }
-			specs := []spec{{"core/base.EntryContext", "core/base.(*EntryContext).Reset"}, {"core/base.SentinelInput", "core/base.(*SentinelInput).reset"}, {"core/base.TokenResult", "core/base.(*TokenResult).ResetToPass"}}
+			specs := []spec{{"core/base.EntryContext", "core/base.(*EntryContext).Reset"}, {"core/base.SentinelInput", "core/base.(*SentinelInput).reset"}, {"core/base.TokenResult", "core/base.(*TokenResult).ResetToPass"}, {"api.EntryOptions", "api.(*EntryOptions).Reset"}}
 			resetOf := map[*types.Named]*ssa.Function{}
 			for _, sp := range specs {
 				t, f := c.P.Named(sp.typ), c.P.Func(sp.reset)
@@ -942,6 +955,114 @@ func init() {
 					})
 					c.Check(stored || subReset, key, f.Pos(), "field %s.%s is written on recycle (store: %v, own reset method called: %v)", t.Obj().Name(), fld.Name(), stored, subReset)
 				}
+			}
+		},
+	})
+
+	register(&Rule{
+		ID: "entry.returned-entry-owns-context", Props: []string{"C01", "C16", "C19"}, Floor: 1,
+		Doc: "an entry that api.entry returns to the caller still owns its context: no path that returns a non-nil entry passes a call that hands the context back to the pool (SlotChain.RefurbishContext / sync.Pool.Put) - recycling is done by the entry's own Exit. A context recycled while its entry is live is reset under it and pooled twice, so two later entries share one context and one of them never completes",
+		Run: func(c *Ctx) {
+			f := c.P.Func("api.entry")
+			ref := c.P.Func("core/base.(*SlotChain).RefurbishContext")
+			if f == nil || ref == nil {
+				c.AnchorLost("api.entry / SlotChain.RefurbishContext")
+				return
+			}
+			n := 0
+			for _, r := range returnsOf(f) {
+				if len(r.Results) == 0 || isNilConst(r.Results[0]) {
+					continue
+				}
+				n++
+				bad := ""
+				for _, ci := range callsIn(f) {
+					if _, isDefer := ci.(*ssa.Defer); isDefer {
+						continue
+					}
+					if (isStaticCallTo(ci, ref) || isExtCall(ci, "sync.(Pool).Put")) && instrReaches(ci.(ssa.Instruction), r) {
+						bad = c.P.Pos(ci.Pos())
+					}
+				}
+				c.Check(bad == "", fmt.Sprintf("%s / return-entry#%d", fnKey(f), n), r.Pos(), "no recycling call precedes the return of a live entry (recycled at %q)", bad)
+			}
+			if n == 0 {
+				c.Violate(fnKey(f)+" / return-entry", f.Pos(), "api.entry never returns an entry")
+			}
+		},
+	})
+
+	register(&Rule{
+		ID: "block.copy-carries-every-field", Props: []string{"C16"}, Floor: 8,
+		Doc: "the copy of the block error that api.entry hands to the caller (NewBlockErrorFromDeepCopy, taken before the context is recycled) carries everything the blocking slot decided: on every path to a return, every field of the source BlockError has been read (a field that is not read on some path cannot have been copied on it), and in TokenResult.DeepCopyFrom every field of the source's block error is read on every path",
+		Run: func(c *Ctx) {
+			be := c.P.Named("core/base.BlockError")
+			if be == nil {
+				c.AnchorLost("core/base.BlockError")
+				return
+			}
+			st := be.Underlying().(*types.Struct)
+			for _, fn := range []string{"core/base.NewBlockErrorFromDeepCopy", "core/base.(*TokenResult).DeepCopyFrom"} {
+				f := c.P.Func(fn)
+				if f == nil {
+					c.AnchorLost(fn)
+					continue
+				}
+				src := f.Params[len(f.Params)-1]
+				for i := 0; i < st.NumFields(); i++ {
+					name := st.Field(i).Name()
+					isRead := func(x ssa.Instruction) bool {
+						ld, ok := x.(*ssa.UnOp)
+						if !ok || ld.Op != token.MUL {
+							return false
+						}
+						fa, ok := ld.X.(*ssa.FieldAddr)
+						if !ok || namedOf(fa.X.Type()) != be || fa.Field != i {
+							return false
+						}
+						// rooted in the source parameter
+						p := accessPath(fa.X)
+						return strings.HasPrefix(p, accessPath(src))
+					}
+					ok := true
+					for _, r := range returnsOf(f) {
+						if !mustBeforeInstr(r, isRead, nil) {
+							ok = false
+						}
+					}
+					c.Check(ok, fnKey(f)+" / reads "+name, f.Pos(), "field %s of the source block error is read on every path to a return", name)
+				}
+			}
+		},
+	})
+
+	register(&Rule{
+		ID: "entry.exit-handlers-owned", Props: []string{"C12", "C03", "C01"}, Floor: 2,
+		Doc: "the exit-handler list of an entry (through which a circuit breaker registers the rollback of its own half-open probe) is storage of that entry alone: every store to SentinelEntry.exitHandlers is a slice made at that place, nil, or append(...) to the entry's own list - never a package-level slice, whose spare capacity would make the first handler of every entry land in the same cell, so that one entry's exit runs another breaker's rollback",
+		Run: func(c *Ctx) {
+			se := c.P.Named("core/base.SentinelEntry")
+			if se == nil {
+				c.AnchorLost("core/base.SentinelEntry")
+				return
+			}
+			for i, st := range fieldStores(c.P, se, "exitHandlers") {
+				v := resolve(st.st.Val)
+				ok := isNilConst(v)
+				if _, fresh := v.(*ssa.MakeSlice); fresh {
+					ok = true
+				}
+				if sl, isSl := v.(*ssa.Slice); isSl {
+					if al, isAl := sl.X.(*ssa.Alloc); isAl && al.Heap {
+						ok = true // composite literal []ExitHandler{...}
+					}
+				}
+				if call, isCall := v.(*ssa.Call); isCall {
+					if b, isB := call.Call.Value.(*ssa.Builtin); isB && b.Name() == "append" {
+						base := accessPath(call.Call.Args[0])
+						ok = strings.HasSuffix(base, ".exitHandlers") && !strings.Contains(base, "core/")
+					}
+				}
+				c.Check(ok, fmt.Sprintf("%s / store SentinelEntry.exitHandlers#%d", fnKey(st.fn), i+1), st.st.Pos(), "stores %s (want: made here, nil, or append to the entry's own list)", accessPath(st.st.Val))
 			}
 		},
 	})
